@@ -40,7 +40,9 @@ CapS(s) == [i \in 1..Len(s) |-> IF i = 1 THEN Upper(s[i]) ELSE Lower(s[i])]
 Comment == <<45, 45, 32, 99, 32, 39, 59>>          \* "-- c ';"  (quote and semicolon inside a comment are inert)
 EmptyComment == <<45, 45>>                           \* "--" directly followed by the line break
 Separators == << <<>>, <<SP>>, <<TAB>>, <<LF>>, <<CR, LF>>, <<SP, SP>>, <<SP>> \o Comment \o <<LF>>, Comment \o <<LF>>, <<LF>> \o Comment \o <<CR, LF>>,
-                 <<SP>> \o EmptyComment \o <<LF>>, EmptyComment \o <<LF>>, <<SP>> \o EmptyComment \o <<CR, LF>> >>
+                 <<SP>> \o EmptyComment \o <<LF>>, EmptyComment \o <<LF>>, <<SP>> \o EmptyComment \o <<CR, LF>>,
+                 \* 13-15: comments holding a backslash (a quoted regex), a backslash right before the line break, non-ASCII text -- all inert
+                 <<SP, 45, 45, 32, 39, 92, 100, 43, 39, LF>>, <<SP, 45, 45, 32, 99, 92, LF>>, <<SP, 45, 45, 32, 233, 8364, 32, 99, LF>> >>
 SepNone == 1
 SepSpace == 2
 HasComment(k) == k >= 7
